@@ -125,6 +125,14 @@ def designStep (closed : List (α × α)) (ylo yhi x2 : α) : Option (α × α) 
 def designCore (closed : List (α × α)) (ylo yhi : α) (steps : List α) : List (α × α) :=
   steps.filterMap (designStep closed ylo yhi)
 
+/-- the two side conditions under which the probe segment `[ylo, yhi]` sees every point of the
+closed polygon: it is non-degenerate and contains every vertex ordinate.  Decidable; the driver
+evaluates it on the very values it hands to `designCore` (answer token `cover`), the harness
+requires it for every contour that is not flat, and the theorems `design_core_*_covered` of
+`Properties/C17.lean` take it as their only hypothesis. -/
+def probeCovers (closed : List (α × α)) (ylo yhi : α) : Bool :=
+  decide (ylo < yhi) && closed.all fun v => decide (ylo ≤ v.2) && decide (v.2 ≤ yhi)
+
 /-- the code before the repair: `assert len(x) <= 2` -/
 def designStepOld (closed : List (α × α)) (ylo yhi x2 : α) : Except Unit (Option (α × α)) :=
   let ys := (intersect closed [(x2, ylo), (x2, yhi)]).map Prod.snd
